@@ -1,5 +1,6 @@
 (* C06 — unsupported operators fail loudly iff reached; type mismatch never errors. *)
-From Rules Require Import Spec Eval Refinement SemProps OpsProps Theorems UndecidedProofs.
+From Rules Require Import Spec Eval Refinement SemProps OpsProps Theorems UndecidedProofs SourceProofs.
+From Coq Require Import String.
 
 (* ErrInvalidOperation exactly for the table of the statement, whatever the operands *)
 Theorem C06_table :
@@ -36,6 +37,18 @@ Theorem C06_final_right :
     sem lower top (QLogic isor l r) d = SFail e d'.
 Proof. exact fail_sticky_right. Qed.
 Print Assumptions C06_final_right.
+
+(* checked on the source of this run (go/ast facts): the typed operations override exactly the
+   operators the table calls supported; everything else falls through to NullOperation *)
+Theorem C06_method_sets_of_source :
+  overrides "NullOperation" = op_names /\
+  overrides "BoolOperation" = ["EQ"; "NE"]%string /\
+  overrides "IntOperation" = ["EQ"; "NE"; "GT"; "LT"; "GE"; "LE"; "IN"]%string /\
+  overrides "FloatOperation" = ["EQ"; "NE"; "GT"; "LT"; "GE"; "LE"; "IN"]%string /\
+  overrides "StringOperation" = op_names /\
+  overrides "VersionOperation" = ["EQ"; "NE"; "GT"; "LT"; "GE"; "LE"]%string.
+Proof. exact c06_method_sets. Qed.
+Print Assumptions C06_method_sets_of_source.
 
 (* an absent attribute or an attribute of the wrong type is never an error: a supported
    operator never fails, whatever the operands (it may only panic on a hostile Stringer) *)
